@@ -1,8 +1,6 @@
 package transaction
 
 import (
-	"errors"
-
 	"github.com/skycoin/skycoin/src/cipher"
 	"github.com/skycoin/skycoin/src/coin"
 	"github.com/skycoin/skycoin/src/params"
@@ -11,21 +9,6 @@ import (
 // C11-H3 — the soft rules accept exactly: size within limit, fee rule, nothing
 // spent from a locked distribution address, every output precise enough; and a
 // soft failure is reported as soft.
-
-// vpModelCoinHours: contract of coin.UxOut.CoinHours (see the C03 harness).
-func vpModelCoinHours(uo *coin.UxOut, t uint64) (uint64, error) {
-	if vpUF64("coinhours.kind", uo.Head.Time, uo.Body.Coins, uo.Body.Hours, t)%2 == 1 {
-		return 0, vpErrCoinHours
-	}
-	return vpUF64("coinhours.value", uo.Head.Time, uo.Body.Coins, uo.Body.Hours, t), nil
-}
-
-var vpErrCoinHours = errors.New("vp: CoinHours overflow")
-
-func vpWideAcc(hi, lo, v uint64) (uint64, uint64) {
-	c, l := vpAdd128(lo, v)
-	return hi + c, l
-}
 
 //vp:prop C11
 //vp:bounds size and fee rules: inputs 1..2, outputs 1..2; all hours, times, head time, burn factor >= 2, max size free; no distribution addresses, precision 6
